@@ -578,6 +578,108 @@ class HelperSequences(Suite):
         return repr(case)
 
 
+SHARED_SRC = """
+import random
+from taskchain import Task, Parameter
+from taskchain.parameter import AutoParameterObject
+
+class Sampler(AutoParameterObject):       # the object carries state: a seeded generator
+    def __init__(self, seed):
+        self.seed = seed
+        self._random = random.Random(seed)
+    def pick(self, items, count):
+        return self._random.sample(items, count)
+
+class Counter(AutoParameterObject):       # the object counts its uses
+    def __init__(self, start=0):
+        self.start = start
+        self._n = start
+    def pick(self, items, count):
+        self._n += 1
+        return [self._n] + items[:count]
+
+class Pool(Task):
+    def run(self) -> list:
+        return list(range(50))
+
+class Sample(Task):
+    class Meta:
+        input_tasks = [Pool]
+        parameters = [Parameter('sampler'), Parameter('count', default=4)]
+    def run(self, pool, sampler, count) -> list:
+        return sampler.pick(pool, count)
+"""
+
+
+class SharedParameters(Suite):
+    """one dict of parameters - a fixture - holding the *definition* of a parameter object that carries state (a seeded
+    sampler, a counter) is handed to several helpers one after the other: each helper yields what a real chain built from
+    that dict yields (a fresh object each time), and the caller's dict still holds the definition afterwards.
+    Runtime check only."""
+    name = 'shared_parameter_definitions'
+    model = ''
+
+    def gen(self, rng, tier):
+        import itertools
+        return [dict(obj=o, helpers=list(hs), count=c) for o in ('Sampler', 'Counter') for c in (None, 3)
+                for hs in (('create_test_task', 'create_test_task'), ('TestChain', 'TestChain', 'create_test_task'),
+                           ('create_test_task', 'TestChain'), ('TestChain',) * 3)]
+
+    def run_impl(self, case):
+        import copy, sys, types
+        from taskchain import Config
+        from taskchain.utils.testing import TestChain, create_test_task
+        tmp = tempfile.mkdtemp(prefix='tcverif-shared-')
+        name = 'tcv_shared'
+        m = types.ModuleType(name)
+        sys.modules[name] = m
+        try:
+            exec(compile(SHARED_SRC, name, 'exec'), m.__dict__)
+            for c in (m.Pool, m.Sample, m.Sampler, m.Counter):
+                c.__module__ = name
+            definition = {'class': f'{name}.{case["obj"]}', 'kwargs': {'seed': 42} if case['obj'] == 'Sampler' else {'start': 7}}
+            params = {'sampler': definition}
+            if case['count'] is not None:
+                params['count'] = case['count']
+            before = copy.deepcopy(params)
+            reals = []
+            for i in range(2):
+                ch = Config(Path(tmp) / f'real{i}', name='real', data={'tasks': [m.Pool, m.Sample], **params}).chain()
+                reals.append(ch['sample'].value)
+            pool = list(range(50))
+            got = []
+            for h in case['helpers']:
+                if h == 'create_test_task':
+                    t = create_test_task(m.Sample, input_tasks={m.Pool: pool}, parameters=params)
+                else:
+                    t = TestChain([m.Sample], mock_tasks={'pool': pool}, parameters=params)['sample']
+                got.append(t.value)
+            return dict(reals=reals, got=got, same_dict=(params == before and params['sampler'] is definition
+                                                         and type(params['sampler']) is dict), now=repr(params)[:200])
+        finally:
+            sys.modules.pop(name, None)
+            shutil.rmtree(tmp, ignore_errors=True)
+
+    def oracle(self, case, obs):
+        if 'unexpected_exception' in obs:
+            return f'unexpected exception {obs["unexpected_exception"]}: {obs["text"]}'
+        if obs['reals'][0] != obs['reals'][1]:
+            return None       # the real chain is not repeatable here: nothing to compare with
+        for i, (h, v) in enumerate(zip(case['helpers'], obs['got'])):
+            if v != obs['reals'][0]:
+                return (f'{case}: use {i} of the shared parameters ({h}) yields {v}; a real chain built from the same dict '
+                        f'yields {obs["reals"][0]} every time (earlier helpers: {case["helpers"][:i]})')
+        if not obs['same_dict']:
+            return f'{case}: the caller\'s parameters were rewritten by the helpers, now {obs["now"]}'
+        return None
+
+    def nontrivial(self, case, obs):
+        return obs['reals'][0] == obs['reals'][1]
+
+    def key(self, case):
+        return repr(case)
+
+
 LIFETIME_SRC = """
 from taskchain import Task, DirData
 
@@ -649,7 +751,7 @@ class HelperLifetime(Suite):
 
 class C19(Prop):
     pid = 'C19'
-    suites = [Helpers(), ParameterIdentity(), MockValueKinds(), HelperSequences(), HelperLifetime()]
+    suites = [Helpers(), ParameterIdentity(), MockValueKinds(), HelperSequences(), SharedParameters(), HelperLifetime()]
     assumptions = ['a fresh base_dir per helper (the helpers persist under the config name `test`)']
 
 
